@@ -27,6 +27,7 @@ class TraceCtx(B.Ctx):
         self.fwd = {n: n for n in names}
         self.inv = dict(self.fwd)
         self.tree = None
+        self.twin = None
 
 
 class NonIntegral(Exception):
